@@ -23,7 +23,7 @@ class C10(PoolCheck):
     LEVEL = 'exploration'
     GROUP = 1
     CASE_TIMEOUT = 120.0
-    FAMILIES = ('xsitype', 'ids', 'keys', 'fixed', 'wild', 'subst', 'assert11', 'ns', 'mixed', 'shadow')
+    FAMILIES = ('xsitype', 'ids', 'keys', 'fixed', 'wild', 'subst', 'assert11', 'ns', 'mixed', 'shadow', 'idfields')
     CORPUS = False
     ASYNC = True
     RULE = ("case = history of 2-12 operations (validate / is_valid / iter_errors drained or abandoned / decode "
